@@ -54,7 +54,33 @@ def generate(scratch):
     with open(os.path.join(gen_dir, "Tables.lean"), "w") as f:
         f.write("\n".join(out) + "\n")
     t["mapranges"] = gen_mapranges(scratch, gen_dir)
+    t["pipeline"] = gen_pipeline(scratch, gen_dir)
     return t
+
+
+def gen_pipeline(scratch, gen_dir):
+    """Call order and error handling of generateImpl / validatePackage / parsePackageNamespaces (go/ast)."""
+    pipe = facts(scratch, "pipeline")
+    passes = facts(scratch, "passes")
+    out = ["/-! GENERATED on every run by harness/py/gen_tables.py (go/ast extraction from internal/cmd and pkg/dsl): do not edit. -/", "",
+           "namespace Yardl.Generated", ""]
+    for fn in ("generateImpl", "validatePackage", "parsePackageNamespaces", "parseAndFlattenNamespaces", "validateImpl"):
+        calls = [c for c in pipe.get(fn, []) if not c["call"].startswith("return ") and c["call"] not in ("make", "append", "path.Join")]
+        rows = [f'  ("{c["call"]}", "{c["err"]}", {"true" if c["guard"].strip() else "false"})' for c in calls]
+        out.append(f"/-- calls of `{fn}` in source order: (callee, what happens to its error, is it guarded by a condition/loop) -/")
+        out.append(f"def calls_{fn} : List (String × String × Bool) := [")
+        out.append(",\n".join(rows) + "]")
+        out.append("")
+    out.append("/-- the validation passes of `dsl.Validate`, in order -/")
+    out.append("def validationPasses : List String := [" + ", ".join(f'"{p}"' for p in passes.get("passes", [])) + "]")
+    out.append("")
+    out.append("/-- passes that return immediately when an earlier pass has reported errors -/")
+    out.append("def passesSkippedAfterErrors : List String := [" + ", ".join(f'"{p}"' for p in sorted(passes.get("earlyReturn", []))) + "]")
+    out.append("")
+    out.append("end Yardl.Generated")
+    with open(os.path.join(gen_dir, "Pipeline.lean"), "w") as f:
+        f.write("\n".join(out) + "\n")
+    return {"pipeline": pipe, "passes": passes}
 
 
 def facts(scratch, what):
